@@ -568,6 +568,8 @@ def specs(prop, tier):
     if prop in ("C01", "C02", "C04") or (prop == "C03" and not q):
         # pseudo-random valid frameworks (gen.random_spec): structures nobody thought of
         seeds = [14, 21, 29] if q else (gen.RANDOM_SEEDS if prop != "C03" else [5, 9, 12, 14, 21, 29])
+        if q and prop == "C04":
+            seeds = [21, 29]  # R14 needs 1-11 minutes of nonlinear solving for the C04 claims: thorough tier only
         for sd in seeds:
             spec = gen.random_spec(sd)
             has_j = any(c.get("junction") for c in spec["comps"])
